@@ -99,7 +99,7 @@ CHECKS = {
     ref="DESIGN.md section 5 (C10)"),
  "C19": dict(
     technique="TLA+ persistence state machine (Persist / MC_Persist: save, restore, recompute, save-restored, reweight over two slots) checked by TLC; its enumerated histories are executed on real CPGraph objects and every observed projection is validated step by step by TLC (Trace_Persist)",
-    text="TLC explores every history of 5 operations over two save slots (RestoredIsSaved, DiskNeverAhead) and prints them; 60/600 real graphs each execute one enumerated history through CPGraph.save / restore_cpgraph / critical_path() / what-if re-weighting; after every operation digests of (nodes, edges, weights, types, attributions), of (path, event set, edge set), of the breakdown table and the path weight are recorded and TLC advances the abstract state: a restored object must equal what the slot held, saving must not change the object, recomputation must keep graph and path weight.",
+    text="TLC explores every history of 5 operations over two save slots (RestoredIsSaved, DiskNeverAhead) and prints them; 200/2000 real graphs (45 % with several longest paths) each execute one enumerated history through CPGraph.save / restore_cpgraph / critical_path() / what-if re-weighting; after every operation digests of (nodes, edges, weights, types, attributions), of (path, event set, edge set), of the breakdown table and the path weight are recorded and TLC advances the abstract state: a restored object must equal what the slot held, saving must not change the object, recomputation must keep graph and path weight.",
     note="Digests computed by the harness from the projected objects; analysis failures are C08's business and redrawn. " + TB,
     ref="DESIGN.md section 5 (C19)"),
  "C20": dict(
